@@ -112,19 +112,25 @@ Proof.
   - apply Forall_forall. trivial.
 Qed.
 
+(* decompression as _decode_message selects it from the codec bits *)
+Definition decompress (orc : oracle) (c : Z) (v : option (list Z)) : res (list Z) :=
+  if (c =? CODEC_GZIP) then gzip_decode orc v else snappy_decode orc v.
+
 Section MsgSet.
   Variable gz : list Z -> list Z.        (* the compression function the encoder used *)
   Variable orc : oracle.                 (* the codec the decoder calls *)
-  Hypothesis gz_roundtrip : forall x, gz_dec orc (gz x) = Ok x.
+  Variable codec : Z.                    (* the codec number the wrappers announce *)
+  Hypothesis codec_known : codec = CODEC_GZIP \/ codec = CODEC_SNAPPY.
+  Hypothesis codec_roundtrip : forall x, decompress orc codec (Some (gz x)) = Ok x.
 
   Definition decodes (d : nat) (ts : list ktree) : Prop :=
     dec_set d orc (enc_kforest gz ts) = (view_log (log_of_forest ts), None).
 
   (* the loop over one level, given that the level below decodes ([d] = depth budget of the nested calls) *)
   Lemma forest_loop d :
-    (forall kids, (kdepth_forest kids < d)%nat -> forallb (wf_ktree gz) kids = true -> decodes d kids) ->
+    (forall kids, (kdepth_forest kids < d)%nat -> forallb (wf_ktree_c codec gz) kids = true -> decodes d kids) ->
     forall ts n read,
-      (kdepth_forest ts < S d)%nat -> forallb (wf_ktree gz) ts = true -> (length ts <= n)%nat ->
+      (kdepth_forest ts < S d)%nat -> forallb (wf_ktree_c codec gz) ts = true -> (length ts <= n)%nat ->
       dec_loop (dec_set d orc) orc n (enc_kforest gz ts) read = (view_log (log_of_forest ts), None).
   Proof.
     intros IHd. induction ts as [|t ts IH]; intros n read Hd Hwf Hn.
@@ -136,7 +142,7 @@ Section MsgSet.
       change (log_of_forest (t :: ts)) with (log_of t ++ log_of_forest ts). rewrite view_log_app.
       destruct t as [off m | off magic attr tsv key kids].
       + (* a plain message *)
-        cbn [wf_ktree] in *. split_andb. unfold wf_kmsg in *. split_andb.
+        cbn [wf_ktree_c] in *. split_andb. unfold wf_kmsg in *. split_andb.
         assert (Hlen : long_bytes (enc_kmsg m) = true).
         { match goal with Hc : wf_kmsg_common m = true |- _ => unfold wf_kmsg_common in Hc; split_andb end.
           unfold long_bytes. assumption. }
@@ -145,7 +151,7 @@ Section MsgSet.
         match goal with Hc : (Z.land (k_attr m) 3 =? 0) = true |- _ => apply Z.eqb_eq in Hc; unfold ATTRIBUTE_CODEC_MASK; rewrite Hc end.
         change (0 =? CODEC_NONE) with true. cbv iota beta. rewrite IHts. reflexivity.
       + (* a compressed wrapper *)
-        cbn [wf_ktree kdepth] in *. split_andb. unfold wf_kwrap in *. split_andb.
+        cbn [wf_ktree_c kdepth] in *. split_andb. unfold wf_kwrap_c in *. split_andb.
         set (inner := flat_map (enc_ktree gz) kids) in *.
         set (w := mk_kmsg magic attr tsv key (Some (gz inner))) in *.
         assert (Hlen : long_bytes (enc_kmsg w) = true).
@@ -156,25 +162,54 @@ Section MsgSet.
           match goal with Hx : (_ || _) = true |- _ => apply orb_prop in Hx; destruct Hx as [Hx|Hx]; apply Z.eqb_eq in Hx; cbn in Hx; auto end. }
         cbn [enc_ktree log_of]. fold inner. fold w. rewrite dec_loop_entry by assumption.
         rewrite dec_message_spec by assumption. unfold dec_payload. cbn [k_magic k_attr k_key k_value k_ts w].
-        match goal with Hc : (Z.land (k_attr w) 3 =? 1) = true |- _ => apply Z.eqb_eq in Hc; cbn [k_attr w] in Hc; unfold ATTRIBUTE_CODEC_MASK; rewrite Hc end.
-        change (1 =? CODEC_NONE) with false. change (1 =? CODEC_GZIP) with true. cbv iota.
-        unfold gzip_decode. rewrite gz_roundtrip.
+        match goal with Hc : (Z.land (k_attr w) 3 =? codec) = true |- _ => apply Z.eqb_eq in Hc; cbn [k_attr w] in Hc; unfold ATTRIBUTE_CODEC_MASK; rewrite Hc end.
         assert (Hk : dec_set d orc inner = (view_log (log_of_forest kids), None)).
         { apply IHd; [unfold kdepth_forest in *; lia|assumption]. }
-        rewrite Hk.
-        destruct Hmag as [-> | ->].
-        * change (0 =? 0) with true. cbv iota beta. unfold wrap_v0. rewrite IHts. reflexivity.
-        * change (1 =? 0) with false. cbv iota beta. unfold wrap_v1. rewrite absolute_view, IHts. reflexivity.
+        pose proof (codec_roundtrip inner) as Hrt. unfold decompress in Hrt.
+        cbv zeta.
+        assert (Hfin : (let (ys, out) := (if magic =? 0 then wrap_v0 else wrap_v1 off) (view_log (log_of_forest kids), None) in
+                        match out with
+                        | Some e => (ys, on_error (read || nonempty ys) e)
+                        | None => let (ys2, out2) := dec_loop (dec_set d orc) orc n (enc_kforest gz ts) (read || nonempty ys) in
+                                  (ys ++ ys2, out2)
+                        end)
+                       = (view_log (if magic =? 0 then flat_map log_of kids else relocate off (flat_map log_of kids))
+                          ++ view_log (log_of_forest ts), None)).
+        { destruct Hmag as [-> | ->].
+          - change (0 =? 0) with true. cbv iota beta. unfold wrap_v0. rewrite IHts. reflexivity.
+          - change (1 =? 0) with false. cbv iota beta. unfold wrap_v1. rewrite absolute_view, IHts. reflexivity. }
+        destruct codec_known as [Ec | Ec]; rewrite Ec in Hrt |- *.
+        * change (CODEC_GZIP =? CODEC_NONE) with false. change (CODEC_GZIP =? CODEC_GZIP) with true in *.
+          cbv iota in Hrt |- *. rewrite Hrt, Hk. exact Hfin.
+        * change (CODEC_SNAPPY =? CODEC_NONE) with false. change (CODEC_SNAPPY =? CODEC_GZIP) with false in *.
+          change (CODEC_SNAPPY =? CODEC_SNAPPY) with true. cbv iota in Hrt |- *. rewrite Hrt, Hk. exact Hfin.
   Qed.
 
-  (* C05_msgset_roundtrip: any nesting depth *)
-  Theorem msgset_rt : forall d ts,
-    (kdepth_forest ts < d)%nat -> forallb (wf_ktree gz) ts = true -> decodes d ts.
+  (* message trees of any nesting depth *)
+  Theorem msgset_rt_c : forall d ts,
+    (kdepth_forest ts < d)%nat -> forallb (wf_ktree_c codec gz) ts = true -> decodes d ts.
   Proof.
     induction d as [|d IHd]; intros ts Hd Hwf; [lia|].
     unfold decodes. cbn [dec_set]. apply forest_loop; try assumption. apply enc_kforest_length.
   Qed.
 End MsgSet.
+
+(* gzip *)
+Theorem msgset_rt gz orc :
+  (forall x, gz_dec orc (gz x) = Ok x) ->
+  forall d ts, (kdepth_forest ts < d)%nat -> forallb (wf_ktree gz) ts = true -> decodes gz orc d ts.
+Proof.
+  intros H. apply (msgset_rt_c gz orc CODEC_GZIP); [now left|]. intros x. exact (H x).
+Qed.
+
+(* snappy, where the library is installed *)
+Theorem msgset_rt_snappy sn orc :
+  sn_avail orc = true -> (forall x, sn_dec orc (sn x) = Ok x) ->
+  forall d ts, (kdepth_forest ts < d)%nat -> forallb (wf_ktree_c CODEC_SNAPPY sn) ts = true -> decodes sn orc d ts.
+Proof.
+  intros Ha H. apply (msgset_rt_c sn orc CODEC_SNAPPY); [now right|]. intros x.
+  unfold decompress, snappy_decode. change (CODEC_SNAPPY =? CODEC_GZIP) with false. cbv iota. rewrite Ha. exact (H x).
+Qed.
 
 (* ------------------------------------------------------------------ a single wrapper: the offset law *)
 Section Wrapper.
